@@ -420,11 +420,13 @@ func (c *Conn) readClient() {
 		x.mu.Lock()
 		auto := x.auto || x.pass
 		handshake := f.key == 18 || f.key == 17 || f.key == 36
-		if !c.named && !handshake {
+		if !c.named && !handshake { // only this goroutine writes named/Class/Name; readers hold c.mu
+			k := fmt.Sprintf("%s/b%d/%s", c.Client, c.Broker, classOf(f.key))
+			c.mu.Lock()
 			c.named = true
 			c.Class = classOf(f.key)
-			k := fmt.Sprintf("%s/b%d/%s", c.Client, c.Broker, c.Class)
 			c.Name = fmt.Sprintf("%s#%d", k, x.ords[k])
+			c.mu.Unlock()
 			x.ords[k]++
 		}
 		x.arrive++
@@ -541,12 +543,13 @@ func (c *Conn) close(why string) {
 		return
 	}
 	c.closed = true
+	name := c.Name
 	c.mu.Unlock()
 	c.cli.Close()
 	c.srv.Close()
 	c.toSrv.stop()
 	c.toCli.stop()
-	c.x.Logf("conn %s closed (%s)", c.Name, why)
+	c.x.Logf("conn %s closed (%s)", name, why)
 	c.x.signal()
 }
 
